@@ -8,13 +8,18 @@ Everything is extracted from src/network/server.rs (brace-matched function bodie
 * `appendBeforeDispatch` — `append_command(parts)` sits in `if self.is_write_command(&command_name)` BEFORE the dispatch
   `match` and does not look at the result (so refused commands are logged as well)
 * `appendSites`    — every function of src/ (outside storage/aof.rs and replication/) that calls `.append_command(`
-* `wakeLogs`       — does `wake_client` append to the log? (pops served to blocked clients)
+* `wakeLogs`       — does `wake_client` append to the log (itself or through a Server method it calls)? (pops served to blocked clients)
+* `blockingPopLogged` — the same for the immediate pop of `handle_blpop` / `handle_brpop`
+* `selectTracked`  — the entry is written through `append_command_in_db(db, parts)`, which emits `SELECT db` on a database change
 
 `facts()` returns the same as a Python dict (used by lib/c11.py to configure the driver without importing a
 generated file that may be `extraction_failed`).
 """
 import os
 import re
+
+
+APPEND_CALL = r"\.\s*append_command(?:_in_db)?\s*\("
 
 
 def paren_block(text, start):
@@ -121,6 +126,7 @@ def facts(src, strip_comments, fn_body, repo=None):
     pnc = fn_body(server, "process_normal_command")
     out["dispatchNames"] = None
     out["appendBeforeDispatch"] = None
+    out["selectTracked"] = None
     if pnc is None:
         out["errors"].append("fn process_normal_command not found in network/server.rs")
     else:
@@ -137,12 +143,20 @@ def facts(src, strip_comments, fn_body, repo=None):
             before = pnc[:mm.start()]
             ap = re.search(r"if\s+let\s+Some\s*\(\s*aof\s*\)\s*=\s*&\s*self\s*\.\s*aof_engine\s*\{\s*"
                            r"if\s+self\s*\.\s*is_write_command\s*\(\s*&\s*command_name\s*\)\s*\{\s*"
-                           r"if\s+let\s+Err\s*\(\s*\w+\s*\)\s*=\s*aof\s*\.\s*append_command\s*\(\s*parts\s*\)", before)
-            n_sites = len(re.findall(r"\.\s*append_command\s*\(", pnc))
+                           r"if\s+let\s+Err\s*\(\s*\w+\s*\)\s*=\s*aof\s*\.\s*"
+                           r"(append_command\s*\(\s*parts\s*\)|append_command_in_db\s*\(\s*db\s*,\s*parts\s*\))", before)
+            n_sites = len(re.findall(APPEND_CALL, pnc))
             if n_sites == 0:
                 out["errors"].append("process_normal_command no longer calls append_command")
             else:
                 out["appendBeforeDispatch"] = bool(ap) and n_sites == 1
+                # SELECT tracking: the entry is written through append_command_in_db(db, parts), which (storage/aof.rs) writes a
+                # `SELECT db` entry first whenever the previous entry ran in another database
+                aof_rs = strip_comments(src("storage/aof.rs"))
+                indb = fn_body(aof_rs, "append_command_in_db")
+                tracked = bool(ap) and "append_command_in_db" in ap.group(1) and indb is not None and \
+                    bool(re.search(r'from_string\s*\(\s*"SELECT"\s*\)', indb)) and bool(re.search(r"!=\s*Some\s*\(\s*db\s*\)|!=\s*db\b", indb))
+                out["selectTracked"] = tracked
     # ---- every other caller of append_command (AofEngine): which functions log?
     sites = []
     for rel, text in all_sources(src, strip_comments, repo):
@@ -150,15 +164,34 @@ def facts(src, strip_comments, fn_body, repo=None):
             continue
         for m in re.finditer(r"\bfn\s+(\w+)\b[^{;]*\{", text):
             b = brace_block(text, m.end())
-            if b is not None and re.search(r"\.\s*append_command\s*\(", b):
+            if b is not None and re.search(APPEND_CALL, b):
                 sites.append("%s:%s" % (rel, m.group(1)))
     out["appendSites"] = sorted(set(sites))
-    wake = fn_body(server, "wake_client")
-    if wake is None:
+    def logs(fn):
+        """does `fn` append to the log — itself or through a method of Server it calls?  None: function not found"""
+        body = fn_body(server, fn)
+        if body is None:
+            return None
+        if re.search(APPEND_CALL, body):
+            return True
+        for callee in set(re.findall(r"\bself\s*\.\s*(\w+)\s*\(", body)):
+            b = fn_body(server, callee)
+            if b is not None and re.search(APPEND_CALL, b):
+                return True
+        return False
+
+    out["wakeLogs"] = logs("wake_client")
+    if out["wakeLogs"] is None:
         out["errors"].append("fn wake_client not found in network/server.rs")
-        out["wakeLogs"] = None
+    bl, br = logs("handle_blpop"), logs("handle_brpop")
+    if bl is None or br is None:
+        out["errors"].append("fn handle_blpop / handle_brpop not found in network/server.rs")
+        out["blockingPopLogged"] = None
+    elif bl != br:
+        out["errors"].append("handle_blpop and handle_brpop differ in whether they log the immediate pop")
+        out["blockingPopLogged"] = None
     else:
-        out["wakeLogs"] = bool(re.search(r"\.\s*append_command\s*\(", wake))
+        out["blockingPopLogged"] = bl
     return out
 
 
@@ -218,5 +251,18 @@ def generate(src, strip_comments, fn_body, header, repo=None):
         failed("wakeLogs", "Bool", err or "wake_client not found")
     else:
         L.append("def wakeLogs : Bool := %s" % ("true" if f["wakeLogs"] else "false"))
+    L.append("")
+    L.append("/-- do `handle_blpop`/`handle_brpop` log the pop they perform at once on a non-empty list? -/")
+    if f["blockingPopLogged"] is None:
+        failed("blockingPopLogged", "Bool", err or "handle_blpop/handle_brpop not recognised")
+    else:
+        L.append("def blockingPopLogged : Bool := %s" % ("true" if f["blockingPopLogged"] else "false"))
+    L.append("")
+    L.append("/-- is a `SELECT db` entry written whenever the database of an entry differs from that of the previous one")
+    L.append("    (`append_command_in_db(db, parts)` in process_normal_command + its definition in storage/aof.rs)? -/")
+    if f["selectTracked"] is None:
+        failed("selectTracked", "Bool", err or "append site not found")
+    else:
+        L.append("def selectTracked : Bool := %s" % ("true" if f["selectTracked"] else "false"))
     L += ["", "end Ferrous.Gen", ""]
     return "\n".join(L)
